@@ -661,7 +661,7 @@ func main() {
 		{"wsync/hashes.go", "Context.findUniqueHash"}, {"wsync/hashes.go", "Context.CreateSignature"}, {"wsync/hashes.go", "βhash"},
 		{"splitfunc/splitfunc.go", "New"},
 		{"pwr/diff.go", "DiffContext.WritePatch"}, {"pwr/diff.go", "makeOpsWriter"},
-		{"pwr/sign.go", "ReadSignature"}, {"pwr/hashinfo.go", "ComputeHashInfo"},
+		{"pwr/sign.go", "ReadSignature"}, {"wsync/block_library.go", "NewBlockLibrary"}, {"wsync/hashes.go", "Context.HashBlock"}, {"pwr/hashinfo.go", "ComputeHashInfo"},
 		{"pwr/blockvalidator.go", "blockValidator.ValidateAsWound"}, {"pwr/blockvalidator.go", "blockValidator.ValidateAsError"},
 		{"pwr/drip/dripwriter.go", "Writer.Write"}, {"pwr/drip/dripwriter.go", "Writer.Close"},
 		{"pwr/validatingpool.go", "ValidatingPool.GetWriter"},
